@@ -11,7 +11,7 @@ RULE = ('grid over (N, batch_size, buckets) + random large N + datasets obtained
         'keywords, hparams object overridden by keywords); features of 12 dtypes / trailing shapes (int32 incl. values > 2^24, uint8[.,3,2], int8[.,1], float16, bfloat16, bool, object, S4, U3, datetime64[D], complex64), '
         'four call forms (+ the view classes directly), ints as python / NumPy scalar / 0-d array, fns as list / tuple / generator / iter / append(), '
         'raw_examples as dict / OrderedDict / mappingproxy; per case: every view twice, interleaved iterators, other views in between, kept results, direct helper calls; '
-        'preprocessor chains of length 0..2; non-trivial = N > 0 (at least one batch); distinct = distinct case JSON')
+        'preprocessor chains of length 0..4 (incl. one function registered twice, not zero-preserving); slices of slices; bucket-boundary cases bs = r*2^k; a float32 column with NaN / inf / -0.0 on real rows; non-trivial = N > 0 (at least one batch); distinct = distinct case JSON')
 TRUSTED = ['numpy slicing / np.zeros / np.arange / slice-store semantics as read by Common/NpArr.v (exercised by the correspondence)',
            'per-dtype behaviour of np.zeros(shape, dtype) (rows are abstract in Coq; judged by the oracle on 12 feature kinds incl. fixed-width bytes / unicode, datetime64, complex64)']
 ASSUMPTIONS = ['batch preprocessors are per-example (row-wise) functions, as the property states',
@@ -50,10 +50,14 @@ def _slices(rng, k):
   return out
 
 
-def _sel(sl):
-  """Rows a slice selects, computed on a plain python range (independent of numpy / fedjax)."""
+def _sel(sl, sl2=None):
+  """Rows a slice (and a second slice of the sliced dataset) selects, computed on a plain
+  python range (independent of numpy / fedjax)."""
   p, a, b, c = sl
-  return list(range(p))[slice(a, b, c)]
+  r = range(p)[slice(a, b, c)]
+  if sl2:
+    r = r[slice(*sl2)]
+  return list(r)
 
 
 def generate(tier, rng):
@@ -73,22 +77,37 @@ def generate(tier, rng):
         yield {'n': len(_sel([p, None, b, None])), 'bs': bs, 'nb': 1 + (p + b) % 3, 'chain': (p + b + bs) % 3,
                'kw': (p + bs) % 4, 'slice': [p, None, b, None], 'deliv': p + 5 * b + bs}
   for i, (n, bs, nb) in enumerate(grid):
-    yield {'n': n, 'bs': bs, 'nb': nb, 'chain': i % 3, 'kw': (i // 3) % 4, 'deliv': i // 12}
+    yield {'n': n, 'bs': bs, 'nb': nb, 'chain': i % 4, 'kw': (i // 4) % 4, 'deliv': i // 16}
   for i in range(nrand):
     bs = rng.choice([1, 2, 3, 7, 8, 16, 31, 32, 64, 100, 128])
     n = rng.choice([rng.randrange(0, 6 * bs + 2), rng.randrange(0, 700)])
-    yield {'n': n, 'bs': bs, 'nb': rng.randrange(1, 10), 'chain': rng.randrange(3), 'kw': rng.randrange(4),
+    yield {'n': n, 'bs': bs, 'nb': rng.randrange(1, 10), 'chain': rng.randrange(4), 'kw': rng.randrange(4),
            'deliv': rng.randrange(60)}
-  for sl in _slices(rng, nslice):
-    n = len(_sel(sl))
+  for j, sl in enumerate(_slices(rng, nslice)):
+    sl2 = None
+    if j % 3 == 0:      # a view of a view: slice the sliced dataset again
+      sl2 = rng.choice([[None, None, -1], [1, None, None], [None, -1, None], [None, None, 2], [0, 3, None]])
+    n = len(_sel(sl, sl2))
     bs = rng.choice([1, 2, 3, rng.randrange(1, max(2, n + 3)), rng.randrange(1, sl[0] + 2)])
-    yield {'n': n, 'bs': bs, 'nb': rng.randrange(1, 6), 'chain': rng.randrange(3), 'kw': rng.randrange(4), 'slice': sl,
-           'deliv': rng.randrange(60)}
+    yield {'n': n, 'bs': bs, 'nb': rng.randrange(1, 6), 'chain': rng.randrange(4), 'kw': rng.randrange(4), 'slice': sl,
+           'deliv': rng.randrange(60), **({'slice2': sl2} if sl2 else {})}
+  # bucket boundaries: batch_size = r * 2^k (r odd), remainder within one of r * 2^j, exactly enough buckets
+  # to reach that bucket (a halving count computed in floating point is off exactly here)
+  odd = [3, 5, 7, 13, 37, 69, 133] if tier == 'quick' else list(range(3, 152, 2))
+  for r in odd:
+    for k in (1, 2, 3):
+      bs = r << k
+      for jj in range(0, k + 1):
+        for d in (-1, 0, 1):
+          rem = (r << jj) + d
+          if 0 < rem < bs:
+            yield {'n': rem + (bs if (r + jj + d) % 4 == 0 else 0), 'bs': bs, 'nb': k - jj + 1 + (d + 1) // 2,
+                   'chain': (r + d) % 4, 'kw': (r + k + jj) % 4, 'deliv': r + 7 * k + jj}
 
 
 def _rows(case):
   """Row ids (values of column x) of the dataset under test, in order."""
-  return _sel(case['slice']) if case.get('slice') else list(range(case['n']))
+  return _sel(case['slice'], case.get('slice2')) if case.get('slice') else list(range(case['n']))
 
 
 def _scalar(v, form):
@@ -100,10 +119,13 @@ _F1 = lambda e: {**e, 'y': e['x'] * 3 + 1}                                 # noq
 _F2 = lambda e: {**e, 'y': e['y'] * e['y'], 'z': e['h'] + 1}               # noqa: E731
 
 
+_G = lambda e: {**e, 'w': e.get('w', e['x']) * 2 + 1}                    # noqa: E731  (applied twice: w = 4x + 3)
+
+
 def _preprocessor(case):
   """The chain of `chain` functions, delivered as list / tuple / generator / iter(list) / built with append()."""
   import fedjax
-  fns = [_F1, _F2][:case['chain']]
+  fns = [_F1, _F2, _G, _G][:case['chain'] + (case['chain'] == 3)]
   form = (case.get('deliv', 0) // 3) % 5
   if form == 0:
     return fedjax.BatchPreprocessor(fns), fns
@@ -117,6 +139,14 @@ def _preprocessor(case):
   for f in fns:
     pre = pre.append(f)
   return pre, fns
+
+
+def _nanf(i):
+  """float32 column with non-finite values on real rows: i%5 == 0 NaN, 1 +inf, 2 -inf, 3 -0.0, 4 i+0.5."""
+  i = np.asarray(i, dtype=np.int64)
+  v = (i + 0.5).astype(np.float32)
+  v[i % 5 == 0], v[i % 5 == 1], v[i % 5 == 2], v[i % 5 == 3] = np.nan, np.inf, -np.inf, -0.0
+  return v
 
 
 def _bf16():
@@ -149,6 +179,7 @@ def _dataset(case):
       'i8': (np.arange(n) % 100 - 50).astype(np.int8).reshape(n, 1),
       'bf': (np.arange(n) % 64 + 1).astype(_bf16()),
       'big': (np.arange(n, dtype=np.int64) + _BIG).astype(np.int32),
+      'nanf': _nanf(np.arange(n)),       # NaN / +inf / -inf / -0.0 on REAL rows
   }
   pre, _ = _preprocessor(case)
   form = (case.get('deliv', 0) // 15) % 3
@@ -157,6 +188,8 @@ def _dataset(case):
   if case.get('slice'):
     _, a, b, c = case['slice']
     ds = ds[slice(a, b, c)]
+    if case.get('slice2'):
+      ds = ds[slice(*case['slice2'])]
   return ds, ex, given
 
 
@@ -168,6 +201,16 @@ def _batches(view):
   return [{k: np.array(v) for k, v in b.items()} for b in view]
 
 
+def _eq(a, b):
+  """Array equality; bitwise for non-object dtypes (NaN == NaN, -0.0 != 0.0)."""
+  a, b = np.asarray(a), np.asarray(b)
+  if a.dtype != b.dtype or a.shape != b.shape:
+    return False
+  if a.dtype == object:
+    return bool(np.array_equal(a, b))
+  return np.ascontiguousarray(a).tobytes() == np.ascontiguousarray(b).tobytes()
+
+
 def _same(b1, b2):
   if len(b1) != len(b2):
     return False
@@ -175,7 +218,7 @@ def _same(b1, b2):
     if set(x) != set(y):
       return False
     for k in x:
-      if x[k].dtype != y[k].dtype or x[k].shape != y[k].shape or not np.array_equal(x[k], y[k]):
+      if not _eq(x[k], y[k]):
         return False
   return True
 
@@ -202,9 +245,10 @@ def _views(ds, case):
     v_pad = ds.padded_batch(hp(fedjax.PaddedBatchHParams(batch_size=case['bs'] + 3, num_batch_size_buckets=case['nb'] + 2)),
                             batch_size=bs, num_batch_size_buckets=nb)
   elif kw == 1:
-    v_plain = ds.batch(batch_size=bs)
+    v_plain = ds.batch(batch_size=bs)                       # drop_remainder left to its default
     v_drop = ds.batch(batch_size=bs, drop_remainder=True)
-    v_pad = ds.padded_batch(batch_size=bs, num_batch_size_buckets=nb)
+    # a value equal to the documented default is left out, so the default itself is exercised
+    v_pad = ds.padded_batch(batch_size=bs) if case['nb'] == 1 else ds.padded_batch(batch_size=bs, num_batch_size_buckets=nb)
   elif kw == 3:
     v_plain = cd.BatchView(ds, hp(fedjax.BatchHParams(batch_size=bs)))
     v_drop = cd.BatchView(ds, hp(fedjax.BatchHParams(batch_size=bs, drop_remainder=True)))
@@ -213,7 +257,8 @@ def _views(ds, case):
     shared = hp(fedjax.BatchHParams(batch_size=bs))       # one hparams object used for two views
     v_plain = ds.batch(shared)
     v_drop = ds.batch(shared, drop_remainder=True)
-    v_pad = ds.padded_batch(hp(fedjax.PaddedBatchHParams(batch_size=bs, num_batch_size_buckets=nb)))
+    v_pad = ds.padded_batch(hp(fedjax.PaddedBatchHParams(batch_size=bs) if case['nb'] == 1 else
+                               fedjax.PaddedBatchHParams(batch_size=bs, num_batch_size_buckets=nb)))
   return v_plain, v_drop, v_pad, hps
 
 
@@ -240,7 +285,7 @@ def _helpers_ok(ds, case):
     ok &= set(p) == set(ex) | {M} and p[M].dtype == np.bool_ and p[M].tolist() == [True] * k + [False] * (size - k)
     for name, v in ex.items():
       a = p[name]
-      ok &= a.dtype == v.dtype and a.shape == (size,) + v.shape[1:] and bool(np.array_equal(a[:k], v))
+      ok &= a.dtype == v.dtype and a.shape == (size,) + v.shape[1:] and _eq(a[:k], v)
       if v.dtype != object:
         ok &= bool(np.array_equal(a[k:], np.zeros((size - k,) + v.shape[1:], v.dtype)))
     for bad in (lambda: cd.pad_examples(p, size + 1), lambda: cd.attach_mask(p, p[M])):   # mask key already present
@@ -254,9 +299,34 @@ def _helpers_ok(ds, case):
     ok = False
   except ValueError:
     pass
+  # malformed inputs: columns with different row counts (shorter or longer than the first), no column at all
+  for bad in ({'a': np.zeros(k), 'b': np.zeros(k + 1)}, {'a': np.zeros(k + 1), 'b': np.zeros(k), 'c': np.zeros(k + 1)}, {}):
+    for call in (cd.assert_consistent_rows, cd.num_examples, cd.ClientDataset):
+      try:
+        call(bad)
+        ok = False
+      except ValueError:
+        pass
+  ok &= cd.num_examples({'a': np.zeros(k), 'b': np.zeros(k + 1)}, validate=False) == k
   m = np.arange(k) % 2 == 0
   am = cd.attach_mask(ex, m)
   ok &= set(am) == set(ex) | {M} and am[M] is m and all(am[name] is ex[name] for name in ex) and M not in ex
+  return bool(ok)
+
+
+def _sentinel_ok(case):
+  """A user feature named like the internal mask key is an ordinary feature for batch() / all_examples()."""
+  import fedjax
+  n = min(len(_rows(case)), 9)
+  M = fedjax.EXAMPLE_MASK_KEY
+  ex = {'x': np.arange(n, dtype=np.int32), M: np.arange(n, dtype=np.int32) + 5}
+  ds = fedjax.ClientDataset(ex, fedjax.BatchPreprocessor([lambda e: {**e, 'y': e[M] * 2}]))
+  got = list(ds.batch(batch_size=case['bs']))
+  ok = [int(i) for b in got for i in b['x'].tolist()] == list(range(n))
+  ok &= all(set(b) == {'x', M, 'y'} and np.array_equal(b[M], b['x'] + 5) and np.array_equal(b['y'], 2 * b[M]) for b in got)
+  if n:
+    a = ds.all_examples()
+    ok &= np.array_equal(a[M], np.arange(n) + 5) and np.array_equal(a['x'], np.arange(n))
   return bool(ok)
 
 
@@ -314,13 +384,12 @@ def run(case):
   hidden &= _same(plain, _batches(f_plain)) and _same(pad, _batches(f_pad)) and _same(drop, _batches(f_drop))
   # -- caller-owned data (item 4): results kept by the caller, containers, hparams objects
   kept = _same([dict(b) for b in raw_plain], plain) and _same([dict(b) for b in raw_pad], pad)
-  mutated = any(not (np.array_equal(ex[k], s[0]) and ex[k].dtype == s[1] and ex[k].shape == s[2])
-                for k, s in snap.items())
+  mutated = any(not (_eq(ex[k], s[0]) and ex[k].dtype == s[1] and ex[k].shape == s[2]) for k, s in snap.items())
   container = set(ex) == set(snap) and all(id(ex[k]) == ids[k] for k in ex) and list(given) == list(snap)
   if not case.get('slice'):
     container &= ds.raw_examples is given
   container &= all(a == b for a, b in hps)
-  container &= len(_preprocessor(case)[1]) == case['chain']
+  container &= len(_preprocessor(case)[1]) == case['chain'] + (case['chain'] == 3)
   return {
       'len': int(len(ds)), 'all': all_rows,
       'plain': [b['x'].tolist() for b in plain],
@@ -328,7 +397,7 @@ def run(case):
       'padded': [[b['x'].tolist(), [bool(t) for t in b[M].tolist()]] if M in b else [b['x'].tolist(), []] for b in pad],
       'again': bool(again), 'mutated': bool(mutated), 'features_ok': bool(feat_ok),
       'interleaved': bool(inter), 'hidden': bool(hidden), 'kept': bool(kept), 'container': bool(container),
-      'helpers': _helpers_ok(ds, case),
+      'helpers': _helpers_ok(ds, case), 'sentinel': _sentinel_ok(case) if case.get('deliv', 0) % 4 == 0 else True,
   }
 
 
@@ -353,12 +422,15 @@ def _features_follow(b, x, mask, case):
   exp['i8'] = ((xi % 100 - 50).astype(np.int8).reshape(n, 1), np.int8, (1,))
   exp['bf'] = ((xi % 64 + 1).astype(_bf16()), _bf16(), ())
   exp['big'] = ((xi + _BIG).astype(np.int32), np.int32, ())
+  exp['nanf'] = (_nanf(xi), np.float32, ())
   if case['chain'] >= 1:
     exp['y'] = ((xi * 3 + 1).astype(np.int32), np.int32, ())
   if case['chain'] >= 2:
     y = (xi * 3 + 1).astype(np.int32)
     exp['y'] = (y * y, np.int32, ())
     exp['z'] = ((xi + 1).astype(np.float16) + np.float16(1), np.float16, ())
+  if case['chain'] >= 3:
+    exp['w'] = ((xi * 4 + 3).astype(np.int32), np.int32, ())
   want = set(exp) | {'obj'} | ({'__mask__'} if mask is not None else set())
   if set(b) != want:
     return False
@@ -366,11 +438,17 @@ def _features_follow(b, x, mask, case):
     a = b[k]
     if a.dtype != dt or a.shape != (n,) + tr:
       return False
-    if not np.array_equal(a[real], v[real]):
+    if k == 'nanf':      # bitwise: NaN, the infinities and the sign of zero must survive on real rows
+      if a.dtype != np.float32 or not np.array_equal(np.ascontiguousarray(a[real]).view(np.uint32),
+                                                      np.ascontiguousarray(v[real]).view(np.uint32)):
+        return False
+    elif not np.array_equal(a[real], v[real]):
       return False
     # padded rows hold the dtype's own zero value (0, False, b'', '', epoch, 0j): what np.zeros gives
     pad = a[~real]
     if mask is not None and not np.array_equal(pad, np.zeros(pad.shape, dt)):
+      return False
+    if mask is not None and k == 'nanf' and np.any(np.signbit(pad)):
       return False
   o = b['obj']
   if o.dtype != object or o.shape != (n,):
@@ -447,6 +525,8 @@ def oracle(case, obs):
   if not obs.get('container', True):
     out.append(('container', 'the raw_examples mapping (keys / array identities), an hparams object or the function '
                 'container handed in was changed'))
+  if not obs.get('sentinel', True):
+    out.append(('sentinel-feature', 'a user feature named like the internal mask key is not carried through batch() / all_examples() as an ordinary feature'))
   if not obs.get('helpers', True):
     out.append(('helpers', 'pad_examples / attach_mask / slice_examples / num_examples called directly misbehave'))
   if not obs['features_ok']:
@@ -479,7 +559,8 @@ def describe(case, obs):
           'scalars': ['int', 'np.int64', '0-d array'][case.get('deliv', 0) % 3],
           'fns_as': ['list', 'tuple', 'generator', 'iter', 'append'][(case.get('deliv', 0) // 3) % 5],
           'mapping': ['dict', 'OrderedDict', 'mappingproxy'][(case.get('deliv', 0) // 15) % 3],
-          'slice': kind}
+          'slice': kind + ('+nested' if case.get('slice2') else ''),
+          'theorem_hypotheses': 'hold (bs >= 1, per-example chain)' if bs >= 1 else 'bs < 1'}
 
 
 def shrink(case):
@@ -487,7 +568,9 @@ def shrink(case):
     p, a, b, c = case['slice']
     for cand in ([p - 1, a, b, c], [p, None, b, c], [p, a, None, c], [p, a, b, None]):
       if cand[0] >= 1 and cand != case['slice']:
-        yield {**case, 'slice': cand, 'n': len(_sel(cand))}
+        yield {**case, 'slice': cand, 'n': len(_sel(cand, case.get('slice2')))}
+    if case.get('slice2'):
+      yield {k: v for k, v in {**case, 'n': len(_sel(case['slice']))}.items() if k != 'slice2'}
     for k in ('bs', 'nb'):
       if case[k] > 1:
         yield {**case, k: case[k] - 1}
